@@ -117,33 +117,34 @@ type InputVar struct {
 
 // VC is the per-function generation context.
 type VC struct {
-	ld            *Loader
-	pkg           *Pkg
-	mode          string
-	fn            string // qualified function name
-	decls         []string
-	declSet       map[string]string // name -> sort
-	dtypes        []string
-	dtSet         map[string]bool
-	usorts        map[string]bool
-	funs          []string
-	funSet        map[string]bool
-	axioms        []Term // global axioms (e.g. frame axioms of pure apps) always included
-	n             int
-	obls          []*Obligation
-	ordinal       map[string]int
-	kinds         map[string]*Kind // heap kinds seen
-	inputs        []InputVar
-	structs       map[string]*StructInfo
-	strLits       map[string]Term
-	defs          map[string]Term
-	pureApps      []PureApp
-	recording     map[string]string // heap var name -> sort, while recording accesses
-	opaqueSig     map[string][]string
-	opaqueSorts   map[string]string
-	revealAll     bool
-	pruneTerminal bool
-	skipBlocks    map[*ast.BlockStmt]bool
+	ld              *Loader
+	pkg             *Pkg
+	mode            string
+	fn              string // qualified function name
+	decls           []string
+	declSet         map[string]string // name -> sort
+	dtypes          []string
+	dtSet           map[string]bool
+	usorts          map[string]bool
+	funs            []string
+	funSet          map[string]bool
+	axioms          []Term // global axioms (e.g. frame axioms of pure apps) always included
+	n               int
+	obls            []*Obligation
+	ordinal         map[string]int
+	kinds           map[string]*Kind // heap kinds seen
+	inputs          []InputVar
+	structs         map[string]*StructInfo
+	strLits         map[string]Term
+	defs            map[string]Term
+	pureApps        []PureApp
+	recording       map[string]string // heap var name -> sort, while recording accesses
+	opaqueSig       map[string][]string
+	opaqueSorts     map[string]string
+	preserveChecked map[string]string
+	revealAll       bool
+	pruneTerminal   bool
+	skipBlocks      map[*ast.BlockStmt]bool
 }
 
 type PureApp struct {
@@ -525,10 +526,11 @@ type State struct {
 	heaps map[string]Term // heap var name -> current term
 	alloc Term
 	pc    *PC
+	epoch string // "" = entry; set by a total havoc: untouched heaps are name@<epoch>
 }
 
 func (st *State) clone() *State {
-	n := &State{vars: make(map[types.Object]Value, len(st.vars)), heaps: make(map[string]Term, len(st.heaps)), alloc: st.alloc, pc: st.pc}
+	n := &State{vars: make(map[types.Object]Value, len(st.vars)), heaps: make(map[string]Term, len(st.heaps)), alloc: st.alloc, pc: st.pc, epoch: st.epoch}
 	for k, v := range st.vars {
 		n.vars[k] = v
 	}
@@ -549,8 +551,31 @@ func (vc *VC) heap(st *State, name, sort string) Term {
 		return t
 	}
 	c := name + "@0"
+	if st.epoch != "" {
+		c = name + "@" + st.epoch
+	}
 	vc.declare(c, sort)
 	return Term{S: c, Sort: sort}
+}
+
+// havocAll: every heap location may have changed (total havoc).
+func (vc *VC) havocAll(st *State, preserved []PreservedField) {
+	vc.n++
+	keep := map[string]Term{}
+	for _, pf := range preserved {
+		if pf.Field == "" {
+			k := vc.sliceKind(pf.T.Underlying().(*types.Slice).Elem())
+			keep[k.Name] = vc.heapOfKind(st, k)[0]
+			continue
+		}
+		k := vc.fieldKind(pf.T, pf.Field)
+		keep[k.Name] = vc.heapOfKind(st, k)[0]
+	}
+	st.heaps = keep
+	st.epoch = fmt.Sprintf("e%d", vc.n)
+	na := vc.fresh("alloc", "Int")
+	st.assume(app("Bool", "<=", st.alloc, na))
+	st.alloc = na
 }
 
 func (vc *VC) heapOfKind(st *State, k *Kind) []Term {
@@ -587,6 +612,19 @@ func (vc *VC) mergeStates(sts []*State) *State {
 		tails[i] = tailSince(s.pc, anc)
 	}
 	out := &State{vars: map[types.Object]Value{}, heaps: map[string]Term{}, pc: anc}
+	sameEpoch := true
+	for _, s := range live[1:] {
+		if s.epoch != live[0].epoch {
+			sameEpoch = false
+		}
+	}
+	if sameEpoch {
+		out.epoch = live[0].epoch
+	} else {
+		// heaps not mentioned by any incoming state are unknown afterwards
+		vc.n++
+		out.epoch = fmt.Sprintf("e%d", vc.n)
+	}
 	// guards: one Boolean per incoming state; for a two-way merge on c / (not c)
 	// the condition itself is the guard
 	guards := make([]Term, len(live))
